@@ -15,7 +15,7 @@ LEVEL_NOTE = ("Lean theorems: keys_eq_arms (after any history the per-arm dictio
               "correspondence (arms, key order and result shape compared after every step, int/float/str labels) and by the twin "
               "checking these invariants on the real bandit under n_jobs in {1,2,3}.")
 
-PROFILE = {"name": "C08", "lp": G.CF_KINDS + G.LIN_KINDS, "np": [None, None] + G.NP_KINDS,
+PROFILE = {"name": "C08", "allow_scale": True, "lp": G.CF_KINDS + G.LIN_KINDS, "np": [None, None] + G.NP_KINDS,
            "weights": {"fit": 1, "pfit": 2, "query": 4, "add": 2.5, "rem": 2, "warm": 0.7, "swap": 1.5}, "n_ops": (5, 12)}
 
 
